@@ -198,6 +198,7 @@ type caseResult struct {
 	fails              []failure
 	nontrivial         string
 	steps              int
+	obs                []stepObs
 }
 
 var ipText = []string{"127.0.0.1", "127.0.0.2"}
@@ -249,7 +250,7 @@ func runCase(c *core, cs caseSpec) (res caseResult) {
 	defer func() {
 		for _, rc := range conns {
 			if rc != nil {
-				rc.nc.Close()
+				rc.closeNow()
 			}
 		}
 	}()
@@ -558,6 +559,7 @@ func runCase(c *core, cs caseSpec) (res caseResult) {
 		}
 	}
 	res.steps = len(obs)
+	res.obs = obs
 
 	// ----- end of case: every session ends exactly once -----
 	n := nSess()
@@ -568,7 +570,7 @@ func runCase(c *core, cs caseSpec) (res caseResult) {
 		}
 	}
 	for _, rc := range conns {
-		rc.nc.Close()
+		rc.closeNow()
 	}
 	for i := range conns {
 		if !c.waitFor(respWait, func() bool { return recs[i].closed }) {
@@ -659,7 +661,9 @@ type job struct {
 	cs  caseSpec
 }
 
-func runAll(ctx *hx.Ctx, cases []caseSpec, workers int) {
+func runAll(ctx *hx.Ctx, cases []caseSpec, workers int) { runAllResults(ctx, cases, workers) }
+
+func runAllResults(ctx *hx.Ctx, cases []caseSpec, workers int) []caseResult {
 	// group by configuration (a server per worker and configuration)
 	type cfgKey struct {
 		mask int
@@ -722,6 +726,7 @@ func runAll(ctx *hx.Ctx, cases []caseSpec, workers int) {
 			ctx.Failf(idx, f.class, r.caseLine, "%s", f.detail)
 		}
 	}
+	return results
 }
 
 func main() {
@@ -734,6 +739,10 @@ func main() {
 		"distinct non-trivial = distinct sequence of (method, status, linked session, all session states)")
 	if lines := ctx.ReplayLines(); lines != nil {
 		replay(ctx, lines)
+		return
+	}
+	if ctx.Prop == "C19" {
+		c19Control(ctx)
 		return
 	}
 	workers := runtime.NumCPU()
